@@ -1,7 +1,7 @@
 (** * C04 -- Vectors and matrices are values: component ops, swizzles, copies. *)
 From Coq Require Import String Ascii ZArith List Bool Arith.
 From NSL Require Import Base.Types Base.Syntax Model.PyNum Model.IR Model.VM Model.Elab Model.Lower Model.Swizzle Spec.RefSem
-     Harness.RunLib Model.PyTree Proofs.OpsAgree Proofs.VecProofs Proofs.CallProofs.
+     Harness.RunLib Model.PyTree Proofs.OpsAgree Proofs.VecProofs Proofs.VecSetProofs Proofs.CallProofs.
 From NSLDyn Require Gen_VM Agree_VM Gen_Shapes.
 Import ListNotations.
 
@@ -30,6 +30,19 @@ Theorem C04_shuffle_step : forall F pc fr st i a b idxs pa pb l1 l2 out,
   shuffle_list (l1 ++ l2) idxs = Some out ->
   step F pc fr st i = StNext (S pc) (rset fr (i_ref i) (VRef (length (hp st)))) (with_heap st (hp st ++ [OList out])).
 Proof. exact step_shuffle_vector. Qed.
+
+(** Assigning through an index (VECTOR_SET): the result is a NEW object equal to the source vector except at the index,
+    where it holds the stored scalar; the source vector and every other existing object are unchanged. *)
+Theorem C04_vector_set_step : forall F pc fr st i k arr idx src pa l (z : Z) w,
+  i_body i = ISetIdx k arr idx src ->
+  rget fr src = Ok w -> rget fr arr = Ok (VRef pa) -> rget fr idx = Ok (VInt z) ->
+  hget (hp st) pa = Some (OList l) -> forallb is_scalar_val l = true ->
+  (0 <= z < Z.of_nat (length l))%Z ->
+  step F pc fr st i = StNext (S pc) (rset fr (i_ref i) (VRef (length (hp st)))) (with_heap st (hp st ++ [OList (list_set l (Z.to_nat z) w)])).
+Proof. exact step_vector_set. Qed.
+Theorem C04_vector_set_exact : forall (l : list val) i w, i < length l ->
+  nth_error (list_set l i w) i = Some w /\ (forall j, j <> i -> nth_error (list_set l i w) j = nth_error l j) /\ length (list_set l i w) = length l.
+Proof. exact vector_set_exact. Qed.
 
 (** the letter -> index table used by the lowering on this run is the one modelled *)
 Theorem C04_swizzle_letters : Gen_VM.swizzle_index_lower = [("r", 0); ("g", 1); ("b", 2); ("a", 3); ("x", 0); ("y", 1); ("z", 2); ("w", 3)]%Z%string.
